@@ -217,6 +217,44 @@ Proof.
     + rewrite app_length. lia.
 Qed.
 
+(* ------------------------------------------------------------------ closed form of the aggregate *)
+(* sum_i z_i * s_i over the items, z_0 = 1 and z_i = H_tag(r_0||pk_0||m_0|| ... ||r_i||pk_i||m_i) mod n *)
+Fixpoint agg_sum (l : list item) (pre : bytes) (i : Z) : Z :=
+  match l with
+  | [] => 0
+  | (r, pk, m, sb) :: t =>
+    let pre' := pre ++ r ++ pk ++ m in
+    (if i =? 0 then 1 else hz P pre') * be_val sb + agg_sum t pre' (i + 1)
+  end.
+
+Lemma agg_fold_sum : forall l pre i s,
+  snd (agg_fold P l (pre, i, s)) mod cn P = (s + agg_sum l pre i) mod cn P.
+Proof.
+  induction l as [|it l IH]; intros pre i s.
+  - simpl. rewrite Z.add_0_r. reflexivity.
+  - unfold agg_fold in *. cbn [fold_left]. destruct it as [[[r pk] m] sb]. cbn [agg_step agg_sum].
+    rewrite IH. unfold sc_add, madd, sc_mul, mmul, sc_of_b32. cbv zeta. cbn [fst].
+    rewrite Z.add_mod_idemp_l by lia.
+    set (A := agg_sum l (pre ++ r ++ pk ++ m) (i + 1)). set (hh := hz P (pre ++ r ++ pk ++ m)).
+    destruct (i =? 0).
+    + replace (s + be_val sb mod cn P + A) with (be_val sb mod cn P + (s + A)) by lia.
+      rewrite Z.add_mod_idemp_l by lia. f_equal. lia.
+    + replace (s + (be_val sb mod cn P * hh) mod cn P + A) with ((be_val sb mod cn P * hh) mod cn P + (s + A)) by lia.
+      rewrite Z.add_mod_idemp_l by lia.
+      rewrite <- Z.add_mod_idemp_l by lia. rewrite Z.mul_mod_idemp_l by lia. rewrite Z.add_mod_idemp_l by lia.
+      f_equal. lia.
+Qed.
+
+Theorem aggregate_bytes_spec : forall agg new,
+  inc_items P agg [] new =
+  flat_map item_r new ++ sc_to_b32 (agg_sum new [] 0 mod cn P) ++ skipn (32 * (length new + 1)) agg.
+Proof.
+  intros agg new. unfold inc_items. cbn [length Nat.eqb prefix_bytes Nat.mul firstn app Z.of_nat Nat.add].
+  replace (32 * 0)%nat with 0%nat by lia. cbn [firstn app]. do 2 f_equal.
+  f_equal. pose proof (agg_fold_sum new [] 0 0) as E. rewrite Z.add_0_l in E.
+  rewrite Z.mod_small in E by (apply agg_fold_range; lia). exact E.
+Qed.
+
 (* ------------------------------------------------------------------ the API function on well-formed input *)
 Definition trip := (bytes * bytes * bytes)%type.      (* key object, message, signature *)
 Definition t_pk (t : trip) : bytes := fst (fst t).
@@ -534,6 +572,77 @@ Proof.
   destruct (aggv_loop _ _ _ _ _) as [res|rhs] eqn:E; [eapply aggv_loop_inl; exact E|].
   unfold sc_of_b32. cbv zeta.
   replace (cn P <=? _) with true by (symmetry; apply Z.leb_le; apply H; reflexivity). reflexivity.
+Qed.
+
+(* ---- verification returns 1 EXACTLY when the specification holds ---- *)
+(* T_i' = z_i * (e_i*P_i + lift_x(r_i)), computed without any check (defaults where a check would fail) *)
+Definition spec_term (pre' : bytes) (i : Z) (pko m r : bytes) : point :=
+  let Q := match pk_load pko with Some Q => Q | None => None end in
+  let R := ge_set_xo P (match fe_of_b32 P r with Some rx => rx | None => 0 end) false in
+  let T := padd P (pmul P (challenge P r m (fe_to_b32 (px Q))) Q) R in
+  if i =? 0 then T else pmul P (hz P pre') T.
+Fixpoint spec_rhs (its : list (bytes * bytes * bytes)) (pre : bytes) (i : Z) (rhs : point) : point :=
+  match its with
+  | [] => rhs
+  | (pko, m, r) :: t =>
+    let pk32 := fe_to_b32 (px (match pk_load pko with Some Q => Q | None => None end)) in
+    let pre' := pre ++ r ++ pk32 ++ m in
+    spec_rhs t pre' (i + 1) (padd P rhs (spec_term pre' i pko m r))
+  end.
+Definition item_ok (it : bytes * bytes * bytes) : Prop :=
+  pk_load (fst (fst it)) <> None /\ r_ok (snd it) = true.
+
+Lemma aggv_loop_spec : forall its pre i rhs X,
+  aggv_loop P its pre i rhs = inr X <-> (Forall item_ok its /\ X = spec_rhs its pre i rhs).
+Proof.
+  induction its as [|[[pko m] r] t IH]; intros pre i rhs X.
+  - cbn. split; [intros H; inversion H; split; [constructor | reflexivity] | intros [_ ->]; reflexivity].
+  - cbn [aggv_loop spec_rhs]. unfold item_ok at 1, spec_term, r_ok.
+    destruct (pk_load pko) as [Q|] eqn:EQ.
+    2:{ split; [discriminate | intros [H _]; inversion H as [|? ? [H1 _] _]; cbn in H1; rewrite EQ in H1; congruence]. }
+    destruct (fe_of_b32 P r) as [rx|] eqn:Er.
+    2:{ split; [discriminate | intros [H _]; inversion H as [|? ? [_ H2] _]; cbn in H2; unfold r_ok in H2; rewrite Er in H2; discriminate]. }
+    destruct (ge_set_xo P rx false) as [R|] eqn:ER.
+    2:{ split; [discriminate | intros [H _]; inversion H as [|? ? [_ H2] _]; cbn in H2; unfold r_ok in H2; rewrite Er, ER in H2; discriminate]. }
+    rewrite IH. split.
+    + intros [H1 H2]. split; [|exact H2]. constructor; [|exact H1]. split; cbn; [rewrite EQ; discriminate | unfold r_ok; rewrite Er, ER; reflexivity].
+    + intros [H1 H2]. split; [inversion H1; assumption | exact H2].
+Qed.
+
+Theorem aggverify_eq_spec : forall pks msgs n agg len,
+  let nn := Z.to_nat n in
+  let its := combine (combine (firstn nn pks) (firstn nn msgs)) (chunks32 nn agg) in
+  let sv := be_val (slice (32 * nn) 32 agg) in
+  ret_of (halfagg_aggverify P (Some pks) (Some msgs) n (Some agg) len) = 1 <->
+  (len = 32 * (n + 1) /\ 0 <= n /\ Forall item_ok its /\ sv < cn P /\
+   padd P (pneg P (pmul P (sv mod cn P) (G P))) (spec_rhs its [] 0 None) = None).
+Proof.
+  intros pks msgs n agg len nn its sv. unfold halfagg_aggverify.
+  destruct ((len / 32 <=? 0) || negb (len / 32 - 1 =? n) || negb (len mod 32 =? 0)) eqn:EL.
+  - split; [discriminate|]. intros (Hlen & Hn & _). exfalso.
+    subst len. replace (32 * (n + 1)) with ((n + 1) * 32) in EL by lia.
+    rewrite Z.div_mul, Z.mod_mul in EL by lia.
+    replace (n + 1 <=? 0) with false in EL by (symmetry; apply Z.leb_gt; lia).
+    replace (n + 1 - 1 =? n) with true in EL by (symmetry; apply Z.eqb_eq; lia). discriminate.
+  - apply orb_false_iff in EL. destruct EL as [EL E3]. apply orb_false_iff in EL. destruct EL as [E1 E2].
+    apply negb_false_iff in E2, E3. apply Z.eqb_eq in E2, E3. apply Z.leb_gt in E1.
+    assert (Hlen : len = 32 * (n + 1) /\ 0 <= n).
+    { assert (len = 32 * (len / 32) + len mod 32) by (apply Z.div_mod; lia). lia. }
+    cbv zeta. fold nn. fold its.
+    destruct (aggv_loop P its [] 0 None) as [res|rhs] eqn:EV.
+    + split.
+      * intros H. pose proof (aggv_loop_inl _ _ _ _ _ EV) as H0. rewrite H0 in H. discriminate.
+      * intros (_ & _ & Hok & _). exfalso.
+        assert (aggv_loop P its [] 0 None = inr (spec_rhs its [] 0 None)) by (apply aggv_loop_spec; split; [exact Hok | reflexivity]).
+        congruence.
+    + apply aggv_loop_spec in EV. destruct EV as [Hok ->].
+      unfold sc_of_b32. cbv zeta. fold sv.
+      destruct (cn P <=? sv) eqn:Eo.
+      * apply Z.leb_le in Eo. split; [discriminate | intros (_ & _ & _ & H & _); lia].
+      * apply Z.leb_gt in Eo.
+        destruct (padd P (pneg P (pmul P (sv mod cn P) (G P))) (spec_rhs its [] 0 None)) eqn:EP; cbn.
+        -- split; [discriminate | intros (_ & _ & _ & _ & H); discriminate].
+        -- split; [intros _; repeat split; try tauto; assumption | reflexivity].
 Qed.
 
 (* verification never returns anything but 0 or 1 *)
